@@ -414,3 +414,47 @@ def token_contexts(seq):
     yield "(def " + s + ") (when true (report))"
     yield "(def (Report (x 0))) (when " + s + " (report))"
     yield "(def (Report (x 0))) (when true " + s + ")"
+
+
+def corner_programs():
+    """finite grids at the syntactic corners a random generator never reaches (shared by C03, C10, C13, C14, C20 acceptance):
+    stateful instructions x operand positions x operators x EVERY kind of bind target (variables, built-ins, primitives,
+    literals, computed expressions), binds as conditions, and type/kind mismatches of declared booleans"""
+    OPS16 = ["+", "-", "*", "/", "max", "min", "wrapped_max", "==", "<", ">", "&&", "||", "if", "!if", "ewma", ":="]
+    inner = ("(if true 3)", "(!if false 3)", "(ewma 2 Flow.rtt_sample_us)", "(if (ewma 2 1) 3)", "(ewma (if true 1) 3)")
+    targets = ("Report.x", "c", "loc", "Cwnd", "Micros", "Flow.rtt_sample_us", "Ack.now", "5", "true", "+infinity", "(+ 1 2)", "(> Ack.bytes_acked 0)",
+               "__eventFlag", "bflag", "vb")
+    head = "(def (Report (x 0)) (c 1) (bflag true) (volatile vb false)) "
+    out = []
+    for outer in OPS16:
+        for inn in inner:
+            for shape in ("(%s %s 3)" % (outer, inn), "(%s 3 %s)" % (outer, inn), "(%s %s %s)" % (outer, inn, inn)):
+                for tgt in ("Report.x", "c", "loc", "Cwnd"):
+                    out.append(head + "(when true (:= %s %s) (report))" % (tgt, shape))
+                out.append(head + "(when true %s (report))" % shape)
+                out.append(head + "(when %s (report))" % shape)
+    values = ("3", "true", "(+ 1 2)", "(> 2 1)", "(if true 3)", "(if (> Ack.bytes_acked 0) 5)", "(!if false 3)", "(ewma 2 3)", "Flow.was_timeout", "bflag", "c", "nosuch")
+    for tgt in targets:
+        for v in values:
+            out.append(head + "(when true (:= %s %s) (report))" % (tgt, v))
+            out.append(head + "(when true (bind %s %s) (:= Report.x 1))" % (tgt, v))
+            out.append(head + "(when (:= %s %s) (report))" % (tgt, v))                  # a bind as the condition
+            out.append(head + "(when (&& (:= %s %s) true) (report))" % (tgt, v))
+            out.append(head + "(when true (:= Report.x (+ 1 (:= %s %s))) (report))" % (tgt, v))
+    out += semantic_corner_programs()
+    return out
+
+
+def semantic_corner_programs():
+    """corner programs whose MEANING matters (run on the datapath by C01): declared booleans, literals at the representation limits"""
+    out = []
+    for decl in ("(b true)", "(b false)", "(volatile b true)", "(volatile b false)", "(Report (b true))", "(Report (volatile b true))", "(Report.b true)"):
+        nm = "Report.b" if "Report" in decl else "b"
+        out.append("(def (Report (x 0)) %s) (when (&& %s true) (:= Report.x (+ Report.x 1)) (:= %s false) (report))" % (decl, nm, nm))
+        out.append("(def (Report (x 0)) %s) (when true (:= %s (> Ack.bytes_acked 5)) (fallthrough)) (when (|| %s false) (:= Report.x 7) (report))" % (decl, nm, nm))
+        out.append("(def (Report (x 0)) %s) (when (|| %s false) (:= Report.x (+ Report.x 100)) (:= %s false) (report)) (when true (:= Report.x (+ Report.x 1)) (:= %s true) (report))" % (decl, nm, nm, nm))
+    for lit in (2**31 - 1, 2**31, 2**32 - 1, 2**32, 2**33 - 1, 2**40, 2**40 - 1, 2**63 - 1, 2**63, 2**64 - 2, 2**64 - 1, 2**64, 3 * 2**32 + 0xffffffff):
+        out.append("(def (Report (x 0))) (when true (:= Report.x %d) (report))" % lit)
+        out.append("(def (Report (x %d))) (when true (report))" % lit)
+        out.append("(def (Report (x 0)) (c %d)) (when (> Micros %d) (:= Report.x c) (report))" % (lit, lit))
+    return out
